@@ -81,6 +81,16 @@ func (x *X) Func(rel, recv, name string) *ast.FuncDecl {
 	return nil
 }
 
+// funcQuiet is Func without the failure record (for optional helpers).
+func (x *X) funcQuiet(rel, recv, name string) *ast.FuncDecl {
+	for _, d := range x.File(rel).Decls {
+		if fd, ok := d.(*ast.FuncDecl); ok && fd.Name.Name == name && fd.Body != nil && fd.Recv != nil && len(fd.Recv.List) == 1 && recvName(fd.Recv.List[0].Type) == recv {
+			return fd
+		}
+	}
+	return nil
+}
+
 func recvName(e ast.Expr) string {
 	switch t := e.(type) {
 	case *ast.StarExpr:
